@@ -100,3 +100,13 @@ Print Assumptions C11_des_block_inverse.
 Print Assumptions C11_cbc_inverse.
 Print Assumptions C11_cfb_inverse.
 Print Assumptions C11_key_installation.
+
+(* a key change that the socket refuses leaves the installed cipher, its salt counter and the digest key as they were (only
+   the user name is replaced): the messages after it are encrypted as the theorems above say, under the key installed before *)
+From GS Require Import Model.Auth Proofs.V3StateProofs.
+Theorem C11_refused_key_change :
+  forall (s : v3sock) (user : bytes) (aalg : Z) (akey : bytes) (palg : Z) (pkey : bytes) (seed : Z) (s' : v3sock) (e : err), v3_set_keys_st s user aalg akey palg pkey seed = (s', Err e) -> install_keys aalg akey palg pkey (engine_id s) seed = Err e /\ privk s' = privk s /\ auth s' = auth s /\ user_name s' = user /\ engine_id s' = engine_id s /\ engine_boots s' = engine_boots s /\ engine_time s' = engine_time s /\ msg_id s' = msg_id s /\ request_id s' = request_id s.
+Proof. exact set_keys_st_refused. Qed.
+Check C11_refused_key_change :
+  forall (s : v3sock) (user : bytes) (aalg : Z) (akey : bytes) (palg : Z) (pkey : bytes) (seed : Z) (s' : v3sock) (e : err), v3_set_keys_st s user aalg akey palg pkey seed = (s', Err e) -> install_keys aalg akey palg pkey (engine_id s) seed = Err e /\ privk s' = privk s /\ auth s' = auth s /\ user_name s' = user /\ engine_id s' = engine_id s /\ engine_boots s' = engine_boots s /\ engine_time s' = engine_time s /\ msg_id s' = msg_id s /\ request_id s' = request_id s.
+Print Assumptions C11_refused_key_change.
